@@ -41,6 +41,9 @@ FIRST_MISS = {
  "C12-r4m2": "finite sources under a fork (frames after the end are equilibrium)",
  "C12-r4m3": "`drop` events: one branch dropped while leading / lagging, the survivor judged from where it was",
  "C13-r4m3": "`drop_bus` event: the Bus handle dropped while outputs lag",
+ "C15-r4m1": "U11's Neg impl (outside 'negation of signed ones') now judged for the range invariant only: panic or a value inside [MIN, MAX]",
+ "C18-r4m1": "ratio-1 transparency of integer formats at depths >= 36",
+ "C18-r4m2": "superposition over inputs with runs of exact zeros (depth <= run < 2*depth) at fractional positions",
  "C09-r3m1": "nodes without buffers anywhere in random graphs (counted per incoming edge when they are inputs)",
 }
 rows = []
